@@ -213,10 +213,11 @@ def main(tier, replay):
         # which concrete finding shows which broken obligation on the real client
         concrete = [sg for sg, (o, _) in findings.items() if not o.get("no_input") and "CallProgressive" not in sg]
         EXPLAINS = {
-            "h1_reply_sends_guarded": ("runSignalReply",), "h2_run_blocking_known": ("runSignalReply", "client.(*Client).run"),
+            "h1_reply_sends_guarded": ("runSignalReply",), "h2_run_blocking_known": ("runSignalReply", "client.(*Client).run", "chan send@client.(*Client).runHandleInvocation"),
             "h3_waiters_release": ("runSignalReply", "waitForReply"), "h9_no_orphan_expect": ("runSignalReply",),
             "h4_close_sequence": ("client.(*Client).Close", "Done not signalled"), "h5_run_exits": ("Done not signalled", "done-never-signalled"),
             "h7_inv_goroutines": ("runHandleInvocation", "cleanupInvHandlersQueue"), "h8_peer_closed_once": ("close of closed channel", "send on closed channel"),
+            "h12_sends_watch_done": ("send on closed channel", "chan send@"),
         }
         unexplained = []
         for hz in conf_failed:
